@@ -178,6 +178,7 @@ Apply(c, op, a, params) ==
     [] op = "id" -> a[1]
     [] op \in {"rt_hodge", "rt_unhodge"} -> a[1]           \* unhodge(hodge x) = x = hodge(unhodge x)
     [] op = "wedge_hodge" -> OP(c, a[1], Hodge(c, a[1]))   \* = coefficient^2 * pss for a basis blade
+    [] op = "wedge_sq" -> GP(c, OP(c, a[1], a[2]), OP(c, a[1], a[2]))
 
 NullCount(c) == Cardinality({j \in 1 .. c.d : c.sig[j] = 0})
 IsScaledBlade(x) == Cardinality(Supp(x)) = 1
@@ -185,7 +186,7 @@ IsScaledBlade(x) == Cardinality(Supp(x)) = 1
 TotalOps == {"gp", "op", "ip", "lc", "rc", "sp", "cp", "acp", "rp", "sw", "proj", "add", "sub",
              "neg", "reverse", "involute", "conjugate", "grade", "hodge", "unhodge",
              "unpolarity", "normsq", "pow", "outerexp", "outersin", "outercos", "id",
-             "rt_hodge", "rt_unhodge", "wedge_hodge"}
+             "rt_hodge", "rt_unhodge", "wedge_hodge", "wedge_sq"}
 
 \* stored form is well formed: keys are blades of the algebra, none repeated
 StoredOK(c, keys, coefs) ==
